@@ -1,6 +1,7 @@
 package loadbalancer
 
 import (
+	"github.com/0xReLogic/Helios/internal/verifrt"
 	"log"
 	"net/http"
 	"net/http/httputil"
@@ -21,6 +22,9 @@ func (t *verifFakeRT) RoundTrip(*http.Request) (*http.Response, error) { return 
 func verifStubProxy(p *httputil.ReverseProxy, rw http.ResponseWriter, req *http.Request) {
 	name := p.Transport.(*verifFakeRT).name
 	verifHit(name)
+	if req.Header.Get("X-Verif-Hold") != "" {
+		verifrt.WaitFor(&verifHold) // the backend takes its time: the request stays in flight until the harness releases it
+	}
 	if req.Header.Get("Upgrade") != "" {
 		// a tunnel lives until one side closes it: note whether a timer is attached to the request that reaches the proxy
 		_, has := req.Context().Deadline()
